@@ -3,6 +3,9 @@
 //   unify record <opts>     stdout: ndjson trace of seeded random histories (binding B)
 //   unify script            stdin: requests (ndjson) -> stdout: events (used for --replay of saved artefacts)
 #include <algorithm>
+#include <cstdio>
+#include <cstdlib>
+#include <unistd.h>
 #include <iostream>
 #include <random>
 #include <set>
@@ -184,6 +187,22 @@ namespace {
    };
 
    // ---------------------------------------------------------------------------------------------
+   // The behaviour being executed is kept in the file named by VERIF_LASTBEH, so that a crash of the library
+   // inside the replayer still leaves a replayable artefact.
+   struct LastBeh {
+      FILE* f = nullptr;
+      LastBeh() { if (auto p = std::getenv("VERIF_LASTBEH")) f = std::fopen(p, "w"); }
+      void note(const std::string& text)
+      {
+         if (f == nullptr) return;
+         std::rewind(f);
+         std::fwrite(text.data(), 1, text.size(), f);
+         std::fputc('\n', f);
+         std::fflush(f);
+         if (ftruncate(fileno(f), static_cast<off_t>(text.size() + 1)) != 0) { }
+      }
+   };
+
    std::string tlc_unescape(const std::string& line)
    {
       // <<"BEH", "....">>  with \" and \\ escapes
@@ -223,6 +242,7 @@ namespace {
    {
       std::ios::sync_with_stdio(false);
       std::string line;
+      LastBeh lastbeh;
       long behaviours = 0, steps = 0, failed = 0, printed = 0;
       std::set<std::string> classes;
       std::map<std::string, long> fail_keys;
@@ -231,6 +251,7 @@ namespace {
          std::string text = line.rfind("<<\"BEH\"", 0) == 0 ? tlc_unescape(line) : line;
          if (text.empty() or text[0] != '[') continue;
          Value beh = vj::parse(text);
+         lastbeh.note(text);
          ++behaviours;
          if (sample.empty()) sample = text;
          Interp in;
